@@ -779,7 +779,8 @@ def _served_mimes(repo, base, f, fl, expr, at, br, served, depth=0):
                     _inverse_table(repo, base, m, mfl, rets[0].value, rets[0], br, depth + 1)
             return False
         dc, v = repo.class_attr(br, e.attr)
-        if dc is not None and isinstance(v, ast.expr):
+        default_none = dc is None or (isinstance(v, ast.Constant) and v.value is None)
+        if dc is not None and isinstance(v, ast.expr) and not default_none:
             try:
                 val = repo.try_fold(v, dc.mod)
             except Exception:
@@ -788,7 +789,41 @@ def _served_mimes(repo, base, f, fl, expr, at, br, served, depth=0):
                 return set(val) == set(served)
             if isinstance(val, dict):
                 return set(val) == set(served)
-        return False
+            return False
+        # an attribute the renderer fills itself (a cache of configuration): every store to it, in any method of the
+        # class, stores the served mimes (or None), and the value read here is not the unfilled None
+        from ..effects import Flow
+        from .common import implies_present
+        stores = []
+        for m in br.methods.values():
+            if not isinstance(m.node, ast.FunctionDef):
+                continue
+            for st in stmts_of(m.node):
+                if isinstance(st, (ast.AugAssign, ast.Delete)) and any(
+                        isinstance(n, ast.Attribute) and n.attr == e.attr and isinstance(n.ctx, (ast.Store, ast.Del)) for n in ast.walk(st)):
+                    return False
+                if isinstance(st, ast.Assign):
+                    for t in st.targets:
+                        if isinstance(t, ast.Attribute) and t.attr == e.attr:
+                            stores.append((m, st))
+                        elif any(isinstance(n, ast.Attribute) and n.attr == e.attr and isinstance(n.ctx, ast.Store) for n in ast.walk(t)):
+                            return False
+        if not stores or depth >= 3:
+            return False
+        for m, st in stores:
+            if isinstance(st.value, ast.Constant) and st.value.value is None:
+                continue
+            mfl = fl if m is f else Flow(m)
+            if not _served_mimes(repo, base, m, mfl, st.value, st, br, served, depth + 1):
+                return False
+        text = norm(e)
+        for lf in fl.leaves(e, at):
+            if norm(lf.value) == text:          # the value on entry: filled by an earlier call, unless it is still None
+                if default_none and not implies_present(lf.conds, text):
+                    return False
+            elif isinstance(lf.value, ast.Constant) and lf.value.value is None:
+                return False
+        return True
     if _inverse_table(repo, base, f, fl, e, at, br, depth):
         return True
     try:
@@ -992,6 +1027,290 @@ def check_negotiation(rep, repo, base):
                           'the Accept header asked for' % (short(lf.value, 50), '; '.join(cond_texts(lf.conds)) or 'none'), mod, lf.stmt)
 
 
+# ---------------------------------------------------------------------------------------------- stream re-chunkers
+class _Rechunk(object):
+    """A generator of the analysed tree through which a body stream is passed, read as a *re-chunker*: it consumes the
+    stream in one ``for`` loop, holds tokens back in a list, and emits either the token itself or the joined buffer.
+    Abstract state (finite): the buffer is E(mpty) / N (holds tokens not yet emitted) / F (its content was emitted, it
+    was not cleared yet); the token of the current iteration was consumed 0 / 1 times.  Emitting a token while the
+    buffer is N lets it overtake the buffered ones; clearing an N buffer, or ending with one, drops tokens; emitting
+    an F buffer again, or consuming a token twice, duplicates.  Tests on the buffer's truth / length refine the state;
+    every other test is free (both outcomes).  Nothing is run: the paths of the loop body are enumerated per state
+    until the set of states at the loop head is stable."""
+
+    def __init__(self, g):
+        self.g = g
+        a = g.node.args
+        ps = [p.arg for p in a.posonlyargs + a.args]
+        if not ps:
+            raise AnalysisError('%s takes no stream' % g.qualname)
+        self.stream = ps[0]
+        self.problems = []          # (node, text)
+        self._seen = set()
+        self.bufs = set()
+        self.var = None
+
+    def fail(self, node, text):
+        k = (getattr(node, 'lineno', 0), text)
+        if k not in self._seen:
+            self._seen.add(k)
+            self.problems.append((node, text))
+
+    def unknown(self, node, what):
+        raise AnalysisError('%s: %s (%s) is outside the shapes of a stream re-chunker the analysis reads'
+                            % (self.g.qualname, what, short(node, 50)))
+
+    # -- recognisers
+    @staticmethod
+    def _empty_list(v):
+        return (isinstance(v, ast.List) and not v.elts) or \
+            (isinstance(v, ast.Call) and isinstance(v.func, ast.Name) and v.func.id == 'list' and not v.args and not v.keywords)
+
+    def _is_flush(self, v):
+        """''.join(buf) -> buf"""
+        if isinstance(v, ast.Call) and isinstance(v.func, ast.Attribute) and v.func.attr == 'join' and len(v.args) == 1 and \
+                not v.keywords and isinstance(v.func.value, ast.Constant) and v.func.value.value in ('', b'') and \
+                isinstance(v.args[0], ast.Name) and v.args[0].id in self.bufs:
+            return v.args[0].id
+        return None
+
+    def _mentions(self, node, names):
+        return any(isinstance(n, ast.Name) and n.id in names for n in ast.walk(node))
+
+    def _has_yield(self, node):
+        return any(isinstance(n, (ast.Yield, ast.YieldFrom)) for n in ast.walk(node))
+
+    # -- refinement by tests on the buffer
+    def feasible(self, test, pol, st):
+        if isinstance(test, ast.UnaryOp) and isinstance(test.op, ast.Not):
+            return self.feasible(test.operand, not pol, st)
+        if isinstance(test, ast.BoolOp):
+            conj = isinstance(test.op, ast.And)
+            if conj is pol:
+                return all(self.feasible(v, pol, st) for v in test.values)
+            return any(self.feasible(v, pol, st) for v in test.values)
+        b = None
+        if isinstance(test, ast.Name) and test.id in self.bufs:
+            b = test.id
+        elif isinstance(test, ast.Call) and isinstance(test.func, ast.Name) and test.func.id in ('len', 'bool') and len(test.args) == 1 and \
+                isinstance(test.args[0], ast.Name) and test.args[0].id in self.bufs:
+            b = test.args[0].id
+        elif isinstance(test, ast.Compare) and len(test.ops) == 1 and isinstance(test.left, ast.Call) and \
+                isinstance(test.left.func, ast.Name) and test.left.func.id == 'len' and len(test.left.args) == 1 and \
+                isinstance(test.left.args[0], ast.Name) and test.left.args[0].id in self.bufs and \
+                isinstance(test.comparators[0], ast.Constant) and test.comparators[0].value == 0:
+            op = test.ops[0]
+            if isinstance(op, (ast.Gt, ast.NotEq)):
+                b = test.left.args[0].id
+            elif isinstance(op, ast.Eq):
+                return self.feasible(test.left.args[0], not pol, st)
+        if b is None:
+            return True
+        empty = dict(st[0])[b] == 'E'
+        return (not empty) if pol else empty
+
+    # -- events
+    def ev_direct(self, st, node):
+        bufs, tok = dict(st[0]), st[1]
+        held = [b for b, x in bufs.items() if x == 'N'] if tok != -1 else []
+        if held:
+            self.fail(node, 'the token is emitted (%s) while earlier tokens are still held back in %s: it overtakes them, the body is '
+                            'not the text the encoder produced' % (short(node, 30), held[0]))
+        if tok is None:
+            self.unknown(node, 'a token emitted outside the loop')
+        if tok >= 1:
+            self.fail(node, 'the token is emitted a second time (%s)' % short(node, 30))
+        return (st[0], 1 if tok >= 0 else -1)
+
+    def ev_append(self, st, b, node):
+        bufs, tok = dict(st[0]), st[1]
+        if tok is None:
+            self.unknown(node, 'a token buffered outside the loop')
+        if tok >= 1:
+            self.fail(node, 'the token is consumed a second time (%s)' % short(node, 30))
+        if bufs[b] == 'F':
+            self.fail(node, 'a token is added to %s, whose content was already emitted and not cleared: the next flush repeats it' % b)
+        bufs[b] = 'N'
+        return (tuple(sorted(bufs.items())), 1 if tok >= 0 else -1)
+
+    def ev_flush(self, st, b, node):
+        bufs = dict(st[0])
+        if bufs[b] == 'F':
+            self.fail(node, 'the content of %s is emitted a second time (it was not cleared after the previous flush)' % b)
+        if bufs[b] == 'N':
+            bufs[b] = 'F'
+        return (tuple(sorted(bufs.items())), st[1])
+
+    def ev_reset(self, st, b, node):
+        bufs = dict(st[0])
+        if bufs.get(b) == 'N':
+            self.fail(node, '%s is cleared (%s) while it holds tokens that were not emitted: they are dropped from the body' % (b, short(node, 30)))
+        bufs[b] = 'E'
+        return (tuple(sorted(bufs.items())), st[1])
+
+    # -- statements
+    def stmt(self, s, st):
+        """[(state, 'fall' | 'continue')]"""
+        if isinstance(s, ast.Pass):
+            return [(st, 'fall')]
+        if isinstance(s, ast.Continue):
+            return [(st, 'continue')]
+        if isinstance(s, ast.Expr):
+            v = s.value
+            if isinstance(v, ast.Constant):
+                return [(st, 'fall')]
+            if isinstance(v, ast.Yield):
+                y = v.value
+                if isinstance(y, ast.Name) and y.id == self.var and st[1] is not None:
+                    return [(self.ev_direct(st, s), 'fall')]
+                b = self._is_flush(y) if y is not None else None
+                if b is not None:
+                    return [(self.ev_flush(st, b, s), 'fall')]
+                self.unknown(s, 'what is yielded')
+            if isinstance(v, ast.Call) and isinstance(v.func, ast.Attribute) and isinstance(v.func.value, ast.Name) and v.func.value.id in self.bufs:
+                b = v.func.value.id
+                if v.func.attr == 'append' and len(v.args) == 1 and isinstance(v.args[0], ast.Name) and v.args[0].id == self.var:
+                    return [(self.ev_append(st, b, s), 'fall')]
+                if v.func.attr == 'clear' and not v.args:
+                    return [(self.ev_reset(st, b, s), 'fall')]
+                self.unknown(s, 'an operation on the buffer')
+            if self._has_yield(v) or self._mentions(v, self.bufs | {self.stream}):
+                self.unknown(s, 'a statement using the stream / the buffer')
+            return [(st, 'fall')]
+        if isinstance(s, (ast.Assign, ast.AnnAssign)):
+            value = s.value
+            if value is None:
+                return [(st, 'fall')]
+            if self._has_yield(value):
+                self.unknown(s, 'a yield expression')
+            pairs = []
+            for t in (s.targets if isinstance(s, ast.Assign) else [s.target]):
+                if isinstance(t, (ast.Tuple, ast.List)) and isinstance(value, (ast.Tuple, ast.List)) and len(t.elts) == len(value.elts):
+                    pairs.extend(zip(t.elts, value.elts))
+                else:
+                    pairs.append((t, value))
+            for t, v in pairs:
+                if isinstance(t, ast.Subscript) and isinstance(t.value, ast.Name) and t.value.id in self.bufs and isinstance(t.slice, ast.Slice) \
+                        and t.slice.lower is None and t.slice.upper is None and self._empty_list(v):
+                    st = self.ev_reset(st, t.value.id, s)
+                elif isinstance(t, ast.Name) and (t.id in self.bufs or self._empty_list(v)):
+                    if not self._empty_list(v):
+                        self.unknown(s, 'the buffer re-bound to something else')
+                    if t.id not in self.bufs:
+                        self.bufs.add(t.id)
+                        st = (tuple(sorted(dict(st[0], **{t.id: 'E'}).items())), st[1])
+                    else:
+                        st = self.ev_reset(st, t.id, s)
+                elif self._mentions(t, self.bufs | {self.stream, self.var} - {None}) and not isinstance(t, ast.Name):
+                    self.unknown(s, 'a store into the stream / buffer / token')
+                elif isinstance(t, ast.Name) and t.id in (self.var, self.stream):
+                    self.unknown(s, 'the token / stream re-bound')
+                elif self._mentions(v, self.bufs) and not (isinstance(v, ast.Call) and isinstance(v.func, ast.Name) and v.func.id == 'len'):
+                    self.unknown(s, 'the buffer used in a value')
+            return [(st, 'fall')]
+        if isinstance(s, ast.AugAssign):
+            if isinstance(s.target, ast.Name) and s.target.id in self.bufs:
+                v = s.value
+                if isinstance(s.op, ast.Add) and isinstance(v, (ast.List, ast.Tuple)) and len(v.elts) == 1 and isinstance(v.elts[0], ast.Name) \
+                        and v.elts[0].id == self.var:
+                    return [(self.ev_append(st, s.target.id, s), 'fall')]
+                self.unknown(s, 'an operation on the buffer')
+            if self._has_yield(s.value):
+                self.unknown(s, 'a yield expression')
+            return [(st, 'fall')]
+        if isinstance(s, ast.Delete):
+            for t in s.targets:
+                if isinstance(t, ast.Subscript) and isinstance(t.value, ast.Name) and t.value.id in self.bufs and isinstance(t.slice, ast.Slice) \
+                        and t.slice.lower is None and t.slice.upper is None:
+                    st = self.ev_reset(st, t.value.id, s)
+                elif self._mentions(t, self.bufs):
+                    self.unknown(s, 'a deletion in the buffer')
+            return [(st, 'fall')]
+        if isinstance(s, ast.If):
+            out = []
+            for pol, body in ((True, s.body), (False, s.orelse)):
+                if self.feasible(s.test, pol, st):
+                    st2 = st
+                    if st[1] == 0 and self._token_empty(s.test, pol):
+                        st2 = (st[0], -1)       # the empty token: nothing to emit, whatever is done with it
+                    out.extend(self.block(body, st2))
+            return out
+        self.unknown(s, 'a %s statement' % type(s).__name__)
+
+    def _token_empty(self, test, pol):
+        if isinstance(test, ast.UnaryOp) and isinstance(test.op, ast.Not):
+            return self._token_empty(test.operand, not pol)
+        if isinstance(test, ast.Name) and test.id == self.var:
+            return pol is False
+        if isinstance(test, ast.Compare) and len(test.ops) == 1 and isinstance(test.left, ast.Name) and test.left.id == self.var and \
+                isinstance(test.comparators[0], ast.Constant) and test.comparators[0].value in ('', b''):
+            return (isinstance(test.ops[0], ast.Eq) and pol is True) or (isinstance(test.ops[0], ast.NotEq) and pol is False)
+        return False
+
+    def block(self, stmts, st):
+        cur, done = [st], []
+        for s in stmts:
+            nxt = []
+            for x in cur:
+                for y, ctrl in self.stmt(s, x):
+                    (nxt if ctrl == 'fall' else done).append((y, ctrl))
+            cur = [y for y, _ in nxt]
+            if len(cur) + len(done) > 512:
+                raise AnalysisError('%s: too many paths' % self.g.qualname)
+        return [(y, 'fall') for y in cur] + done
+
+    def run(self):
+        body = list(self.g.node.body)
+        loops = [i for i, s in enumerate(body) if isinstance(s, ast.For) and isinstance(s.iter, ast.Name) and s.iter.id == self.stream]
+        if len(loops) != 1:
+            raise AnalysisError('%s does not consume its stream in exactly one top-level for loop' % self.g.qualname)
+        i = loops[0]
+        loop = body[i]
+        if not isinstance(loop.target, ast.Name):
+            self.unknown(loop, 'the loop target')
+        for s in body[:i] + body[i + 1:]:
+            if self._mentions(s, {self.stream}):
+                self.unknown(s, 'another use of the stream')
+        st = ((), None)
+        for y, ctrl in self.block(body[:i], st):
+            st = y
+        if len(self.block(body[:i], ((), None))) != 1:
+            self.unknown(body[0], 'branching before the loop')
+        self.var = loop.target.id
+        head, todo = set(), [st[0]]
+        while todo:
+            b = todo.pop()
+            if b in head:
+                continue
+            head.add(b)
+            for y, ctrl in self.block(loop.body, (b, 0)):
+                if y[1] == 0:
+                    self.fail(loop, 'on some path through the loop a token is neither emitted nor kept: it is dropped from the body')
+                todo.append(y[0])
+        self.var = None
+        for b in sorted(head):
+            for y, ctrl in self.block(list(loop.orelse) + body[i + 1:], (b, None)):
+                held = [n for n, x in y[0] if x == 'N']
+                if held:
+                    self.fail(loop, 'tokens still held in %s when the stream ends are never emitted: the tail of the body is lost' % held[0])
+        return self.problems
+
+
+def _tree_generator(repo, f, call):
+    """(generator function of the analysed tree, the stream it is given) for ``g(stream, ...)``; None for anything else."""
+    if not (isinstance(call, ast.Call) and isinstance(call.func, ast.Name) and call.args and not isinstance(call.args[0], ast.Starred)):
+        return None
+    try:
+        kind, m, obj = repo.resolve(f.mod, call.func.id)
+    except Exception:
+        return None
+    if kind != 'func' or m is None or m.external or not isinstance(obj.node, ast.FunctionDef):
+        return None
+    if not any(isinstance(n, (ast.Yield, ast.YieldFrom)) for n in walk_body(obj.node)):
+        return None
+    return obj, call.args[0]
+
+
 # ---------------------------------------------------------------------------------------------- R17.l: JSON bodies
 def check_json_bodies(rep, repo, base):
     """R17.l: the streaming and the non-streaming JSON body, and the JSON inside a JSONP body, are all produced by the one
@@ -1004,6 +1323,7 @@ def check_json_bodies(rep, repo, base):
     rep.rule('R17.l', 'every JSON body (streaming, non-streaming, inside JSONP) is self.json_encoder applied to the endpoint result; '
                       'a JSONP body is callback + "(" + JSON + ")" and is built only when the request names a callback')
     n = 0
+    judged = set()
     for q in ('JSONRender.__call__', 'JSONPRender.__call__'):
         f = simple.func(q)
         fl = Flow(f)
@@ -1012,7 +1332,7 @@ def check_json_bodies(rep, repo, base):
             raise AnalysisError('%s takes no endpoint result' % q)
         ctx = 'context' if 'context' in ps else ps[-1]
 
-        def json_part(expr, at, depth=0):
+        def json_part(expr, at, depth=0, lenient=False):
             """'stream' / 'whole' when every value flowing into expr is the renderer's encoder applied to the context;
             else (None, offending leaf)."""
             kinds = set()
@@ -1025,8 +1345,32 @@ def check_json_bodies(rep, repo, base):
                     whole = True
                 else:
                     whole = False
+                while not whole and isinstance(v, ast.Call) and isinstance(v.func, ast.Name) and v.func.id in ('iter', 'list', 'tuple') and \
+                        len(v.args) == 1 and not v.keywords and not isinstance(v.args[0], ast.Starred) and depth < 3:
+                    inner = v.args[0]
+                    if isinstance(inner, ast.Name):
+                        k2, bad2 = json_part(inner, lf.stmt, depth + 1, lenient)
+                        if not k2:
+                            return None, bad2 if bad2 is not None else lf.value
+                        kinds.update(k2)
+                        v = None
+                        break
+                    v = inner
+                if v is None:
+                    continue
+                w = _tree_generator(repo, f, v) if not whole else None
+                if w is not None and depth < 3:
+                    k2, bad2 = json_part(w[1], lf.stmt, depth + 1, lenient)
+                    if not k2:
+                        return None, bad2 if bad2 is not None else lf.value
+                    rechunked(w[0], v)
+                    kinds.add('stream')
+                    continue
                 if not (isinstance(v, ast.Call) and isinstance(v.func, ast.Attribute) and v.func.attr in ('encode', 'iterencode')
                         and len(v.args) == 1 and not v.keywords):
+                    if depth < 3 and not lenient and carries_json(v, lf.stmt, depth):
+                        raise AnalysisError('%s: the JSON stream is passed through %s, a transformation the analysis cannot follow'
+                                            % (q, short(v, 60)))
                     return None, lf.value
                 if whole and v.func.attr != 'encode':
                     return None, lf.value
@@ -1036,6 +1380,36 @@ def check_json_bodies(rep, repo, base):
                     return None, lf.value
                 kinds.add('whole' if v.func.attr == 'encode' else 'stream')
             return (kinds or None), None
+
+        def carries_json(v, at, depth):
+            """Some part of the expression is the renderer's encoder applied to the context."""
+            for sub in ast.walk(v):
+                if sub is v:
+                    continue
+                if isinstance(sub, ast.Call) and isinstance(sub.func, ast.Attribute) and sub.func.attr in ('encode', 'iterencode') and \
+                        norm(fl.resolve(sub.func.value, at)) == 'self.json_encoder':
+                    return True
+                if isinstance(sub, ast.Name) and isinstance(sub.ctx, ast.Load) and sub.id in fl.defs and sub.id != ctx:
+                    try:
+                        if json_part(sub, at, depth + 1)[0]:
+                            return True
+                    except AnalysisError:
+                        return True
+            return False
+
+        def rechunked(g, node):
+            """The body passes through a generator of the tree: it must hand on the text it is given."""
+            if g.key in judged:
+                return
+            judged.add(g.key)
+            problems = _Rechunk(g).run()
+            for pn, text in problems:
+                rep.fail('R17.l', fkey(g, 're-chunking: %s' % text[:60]),
+                         '%s re-chunks a JSON body (%s in %s) but does not hand on the text it is given: %s'
+                         % (g.qualname, short(node, 40), q, text), g.mod, pn)
+            if not problems:
+                rep.ok('R17.l', fkey(g, 're-chunking'), '%s hands the tokens of the body on in order, each exactly once (%s in %s)'
+                       % (g.qualname, short(node, 40), q), g.mod, g.node)
 
         def flatten(e, at):
             """Items of the iterable a JSONP body is chained from: ('const', str) / ('expr', node) / ('json', kinds) /
@@ -1048,7 +1422,7 @@ def check_json_bodies(rep, repo, base):
             if isinstance(e, ast.BinOp) and isinstance(e.op, ast.Add):
                 return flatten(e.left, at) + flatten(e.right, at)
             if isinstance(e, (ast.List, ast.Tuple)) and not any(isinstance(x, ast.Starred) for x in e.elts):
-                k, _ = json_part(e, at) if len(e.elts) == 1 else (None, None)
+                k, _ = json_part(e, at, 0, True) if len(e.elts) == 1 else (None, None)
                 if k:
                     return [('json', k)]
                 out = []
@@ -1058,13 +1432,21 @@ def check_json_bodies(rep, repo, base):
             if isinstance(e, ast.Call) and isinstance(e.func, ast.Name) and e.func.id in ('list', 'tuple', 'iter') and len(e.args) == 1 \
                     and not e.keywords:
                 return flatten(e.args[0], at)
-            k, bad = json_part(e, at)
+            w = _tree_generator(repo, f, e)
+            if w is not None:
+                inner = flatten(w[1], at)
+                if any(kind == 'json' for kind, x in inner):
+                    rechunked(w[0], e)
+                    return inner
+            k, bad = json_part(e, at, 0, True)
             if k:
                 return [('json', k)]
             if isinstance(e, ast.Name):
                 lvs = fl.leaves(e, at)
                 if len(lvs) == 1 and not lvs[0].opaque and lvs[0].value is not e:
                     return flatten(lvs[0].value, lvs[0].stmt)
+            if carries_json(e, at, 0):
+                raise AnalysisError('%s: the JSON stream is passed through %s, a transformation the analysis cannot follow' % (q, short(e, 60)))
             return [('bad', bad if bad is not None else e)]
 
         def pieces(x, at):
